@@ -464,6 +464,27 @@ pub fn models(quick: bool) -> Vec<SenderModel> {
     }
 }
 
+/// C17's clause "a reset or drop discards that stream's unsent data without disturbing other streams" has a side that only the
+/// sender's bookkeeping shows: connection window that a cancelled stream had been assigned must come back for the others.
+/// The sender model (default configuration; resets and handle drops are in its menu) is run for C17 and its capacity
+/// conservation rules are taken over under C17's name.
+pub fn capacity_after_cancel_for_c17(ctx: &Ctx, out: &mut Outcome, vios: &mut VioSet) {
+    let quick = ctx.tier.is_quick();
+    let m = SenderModel::new(if quick { "sender-default-q" } else { "sender-default-t" }, quick, None, 65535);
+    let deadline = ctx.elapsed() + if quick { 20.0 } else { 200.0 };
+    let rep = search(ctx, &m, "C16", if quick { 4 } else { 6 }, deadline, true);
+    out.harness("capacity-after-cancel (sender model of C16)", json!({"completed_depth": rep.completed_depth, "executions": rep.execs, "states": rep.states}));
+    out.add_count("evaluations", rep.execs);
+    out.add_count("traces_validated_against_impl", rep.execs);
+    out.add_count("transitions", rep.transitions);
+    for mut x in rep.agg.vios.into_vec() {
+        if x.rule == "C16.assigned-capacity-lost" {
+            x.rule = "C17.cancelled-stream-keeps-capacity".into();
+            vios.add(x);
+        }
+    }
+}
+
 pub fn run(ctx: &Ctx, prop: &'static str) -> Outcome {
     let mut out = Outcome::default();
     let quick = ctx.tier.is_quick();
